@@ -495,3 +495,97 @@ def cfg_replay(exe, edges, jobs=14, timeout=900):
                     if len(v1) != len(v2) or any(not (abs(a - b) <= 1e-12 * sc) for a, b in zip(v1, v2)):
                         out.append((i, "evolve/state", "state after a fixed Evolve differs from the twin's by %.3g" % max([abs(a - b) for a, b in zip(v1, v2)] or [float("inf")])))
     return out, fails
+
+
+def seq_replay(exe, edges, jobs=14, timeout=600):
+    """Replay behaviours of module SolverSeq (those that end with an Evolve).  Returns (violations, nscripts, nevolves):
+    violations = list of (key, text, hist)."""
+    import concurrent.futures, json as _j
+    hs = [e for e in edges if e["hist"] and e["hist"][-1][0] == "evolve"]
+    SH = {1: "1 2 1 0", 2: "3 3 2 1"}
+
+    def script(e):
+        c = ["NEW 1 %s 0" % SH[1], "STEPPER 1 rkf45 1 400", "TOL 1 1e-5 1e-5"]
+        alive = {1}
+        for kind, a, b in e["hist"]:
+            if kind == "new":
+                c += ["NEW %d %s 0" % (a, SH[1]), "STEPPER %d rkf45 1 400" % a, "TOL %d 1e-5 1e-5" % a]; alive.add(a)
+            elif kind == "ini":
+                c.append("INI %d %s 8" % (a, SH[b]))
+            elif kind == "any":
+                c.append("ANY %d %d" % (a, b))
+            elif kind == "evolve":
+                c.append("EVOLVE %d 4" % a)
+            elif kind == "movector":
+                c.append("MOVECTOR %d %d" % (a, b)); alive.add(a)
+            else:
+                c.append("MOVEASSIGN %d %d" % (a, b))
+        c += ["DESTROY %d" % o for o in sorted(alive)] + ["MARK"]
+        return c
+
+    def expected(e):
+        """per Evolve of the history: (object, AnyNumerics, clock after)"""
+        any_ = {1: False, 2: False}; t4 = {1: 0, 2: 0}; out = []
+        for kind, a, b in e["hist"]:
+            if kind == "new": any_[a] = False; t4[a] = 0
+            elif kind == "ini": t4[a] = 8
+            elif kind == "any": any_[a] = bool(b)
+            elif kind == "evolve": t4[a] += 4; out.append((a, any_[a], t4[a]))
+            else: any_[a] = any_[b]; t4[a] = t4[b]
+        return out
+
+    def judge(e, lines):
+        bad = []
+        ev = [_j.loads(l) for l in lines if l.startswith('{"e":"Evolve')]
+        exp = expected(e)
+        starts = [x for x in ev if x["e"] == "EvolveStart"]; ends = [x for x in ev if x["e"] == "EvolveEnd"]
+        if len(starts) != len(exp) or len(ends) != len(exp):
+            return [("evolve-count", "recorded %d starts / %d ends for %d Evolve calls" % (len(starts), len(ends), len(exp)))]
+        for k, (o, an, t4) in enumerate(exp):
+            s_, e_ = starts[k], ends[k]
+            if not s_["paramsok"]: bad.append(("paramsok", "Evolve #%d on object %d: the system handed to GSL does not point back at this object" % (k, o)))
+            if (s_["num"] == 1) != an: bad.append(("numerics-flag", "Evolve #%d on object %d: stepper %s although AnyNumerics is %s" % (k, o, "ran" if s_["num"] else "did not run", an)))
+            if e_["threw"]: bad.append(("threw", "Evolve #%d on object %d reported a GSL failure" % (k, o)))
+            elif e_["t4"] != t4 or not e_["t4exact"]: bad.append(("clock", "Evolve #%d on object %d: clock %s quarter ticks, specification %d" % (k, o, e_["t4"], t4)))
+            if e_["eact"] != e_["sys"]: bad.append(("after-evolve", "Evolve #%d on object %d: the in-step view does not coincide with the stored state" % (k, o)))
+            if not e_.get("contract", True): return [("contract", "GSL evaluated the first right-hand side away from the caller's array")]
+        return bad
+
+    def run_many(idx):
+        cmds = ["QUIET 1"]
+        for i in idx:
+            cmds += script(hs[i])
+        return run_script(exe, cmds, timeout=timeout)
+
+    def split(lines):
+        out = [[]]
+        for l in lines:
+            if l.startswith("MARK"):
+                out.append([])
+            else:
+                out[-1].append(l)
+        return out
+
+    chunks = [list(range(j, len(hs), jobs)) for j in range(jobs)]
+    viol = []; nev = 0
+    with concurrent.futures.ThreadPoolExecutor(max_workers=jobs) as ex:
+        for idx, (rc, lines, err) in zip(chunks, ex.map(run_many, chunks)):
+            parts = split(lines)
+            done = len(parts) - 1
+            for k in range(done):
+                for what, text in judge(hs[idx[k]], parts[k]):
+                    viol.append(("lifetime/" + what, text, hs[idx[k]]["hist"]))
+                nev += sum(1 for h in hs[idx[k]]["hist"] if h[0] == "evolve")
+            if died(rc) or done < len(idx):
+                # the driver died (or stopped) in script number `done` of this chunk: judge it alone, then go on one by one
+                for k in range(done, len(idx)):
+                    rc1, l1, e1 = run_many([idx[k]])
+                    if died(rc1):
+                        viol.append(("lifetime/%s" % ("no-return" if rc1 == "timeout" else "crash"),
+                                     "the driver %s (rc=%s) %s" % ("did not return" if rc1 == "timeout" else "died", rc1, e1[-200:]), hs[idx[k]]["hist"]))
+                        if sum(1 for v_ in viol if v_[0].endswith("crash") or v_[0].endswith("no-return")) >= 6:
+                            break
+                    else:
+                        for what, text in judge(hs[idx[k]], split(l1)[0]):
+                            viol.append(("lifetime/" + what, text, hs[idx[k]]["hist"]))
+    return viol, len(hs), nev
